@@ -678,3 +678,27 @@ func verifLemma_C14_overlay_world_snapshot(v string, w string) {
 	verifrt.Assert(now != nil && now.Get("name").Value.String() == w, "live-world-shows-the-replacement")
 	verifrt.Assert(live.HasFeatureWithID(id2.FeatureID()), "live-world-knows-the-second-feature")
 }
+
+// ---- C13: a rejected addition leaves the world as it was (bounded shape) ---------------------
+// Both mutable worlds hold one relation feature. Adding a path with a single point and adding
+// a feature with an invalid ID are rejected by the real AddFeature, and afterwards the world
+// has neither of them and still returns the relation as before.
+func verifHelper_C13_rejected(w MutableWorld, v string) {
+	id := FromOSMRelationID(1)
+	verifrt.Assert(w.AddFeature(&RelationFeature{RelationID: id, Tags: b6.Tags{{Key: "name", Value: b6.NewStringExpression(v)}}}) == nil, "setup")
+	short := &GenericFeature{ID: FromOSMWayID(5), Tags: b6.Tags{{Key: b6.PathTag, Value: b6.NewExpressions([]b6.AnyExpression{b6.FeatureIDExpression(FromOSMNodeID(1))})}}}
+	verifrt.Assert(w.AddFeature(short) != nil, "path-with-one-point-is-rejected")
+	verifrt.Assert(!w.HasFeatureWithID(FromOSMWayID(5)) && w.FindFeatureByID(FromOSMWayID(5)) == nil, "rejected-path-is-not-in-the-world")
+	invalid := &RelationFeature{RelationID: b6.RelationID{}, Tags: b6.Tags{{Key: "name", Value: b6.NewStringExpression(v)}}}
+	verifrt.Assert(w.AddFeature(invalid) != nil, "feature-with-an-invalid-id-is-rejected")
+	f := w.FindFeatureByID(id.FeatureID())
+	verifrt.Assert(f != nil && f.Get("name").Value.String() == v, "existing-feature-is-unchanged")
+}
+
+func verifLemma_C13_basic_world_rejected_addition(v string) {
+	verifHelper_C13_rejected(NewBasicMutableWorld(), v)
+}
+
+func verifLemma_C13_overlay_world_rejected_addition(v string) {
+	verifHelper_C13_rejected(NewMutableOverlayWorld(vListWorld{}), v)
+}
